@@ -10,6 +10,7 @@ That `WF` holds after EVERY history and crash is decided by running the checker 
 of sampled histories (labelled PARTIAL): the block-level operations are not modelled.
 -/
 import GoNfsd.Lemmas.MultiShrink
+import GoNfsd.Lemmas.FsckBridge
 import GoNfsd.Lemmas.MultiTree
 import GoNfsd.Gen.Skeleton
 import GoNfsd.Lemmas.InodeTable
@@ -508,6 +509,44 @@ example :
       ({ st := GoNfsd.Model.BlockMap.emptyStore, allocs := [100, 101, 102] }, fun _ => List.replicate (NDIRECT + 2) 0)
     (r.2 1, r.2 2, r.1.allocs, r.1.freed) = ([0, 0, 0, 0, 0, 0, 0, 0, 0, 0], [102, 0, 0, 0, 0, 0, 0, 0, 101, 0], [], [100, 101, 102]) := by
   decide
+
+/-! ### the bridge to the images the checker reads -/
+
+/-- THE CHECKER'S OWNERSHIP IS THE MODEL'S: on an image whose inode carries the model's root list
+    and whose index blocks hold the model's non-null entries, the blocks the structure checker
+    attributes to the inode (`Fsck.owned`, walking the image) are exactly the non-null pointers of
+    the model's tree, position by position in the checker's order. -/
+theorem checker_ownership_is_the_pointer_tree (img : GoNfsd.Model.Fsck.Image) (st : GoNfsd.Model.BlockMap.Store)
+    (ino : GoNfsd.Model.Fsck.DInode) (hl : ino.blks.length = NDIRECT + 2)
+    (h : GoNfsd.Model.BlockMap.IndOK img st ino.blks) :
+    (GoNfsd.Model.Fsck.owned img ino).map (·.blk) =
+      GoNfsd.Model.BlockMap.nz (GoNfsd.Model.BlockMap.posList.map (GoNfsd.Model.BlockMap.ptr st ino.blks)) :=
+  GoNfsd.Model.BlockMap.owned_blk img st ino hl h
+
+/-- ... hence the image of EVERY state reachable by any history of mappings, truncations and reuse
+    of freed blocks on any number of files passes the checker's one-owner test, for any finite set
+    of files put into the image: what `fsck` checks on the images exported from the running server
+    is the invariant the model keeps. -/
+theorem checker_one_owner_on_every_reachable_image (allocs : List Nat)
+    (hd : GoNfsd.Model.BlockMap.DistinctNZ allocs) (ops : List GoNfsd.Model.BlockMap.MOp)
+    (hv : GoNfsd.Model.BlockMap.MValid ({ st := GoNfsd.Model.BlockMap.emptyStore, allocs := allocs }, fun _ => List.replicate (NDIRECT + 2) 0) ops)
+    (files : List Nat) (hn : files.Nodup) :
+    GoNfsd.Model.Fsck.chkOneOwner
+      (GoNfsd.Model.BlockMap.imageOf
+        (ops.foldl GoNfsd.Model.BlockMap.mapply ({ st := GoNfsd.Model.BlockMap.emptyStore, allocs := allocs }, fun _ => List.replicate (NDIRECT + 2) 0)).1.st
+        (files.map fun a => (a, (ops.foldl GoNfsd.Model.BlockMap.mapply ({ st := GoNfsd.Model.BlockMap.emptyStore, allocs := allocs }, fun _ => List.replicate (NDIRECT + 2) 0)).2 a))) = true :=
+  GoNfsd.Model.BlockMap.imageOf_one_owner _ _ (one_owner_across_files_after_any_history allocs hd ops hv) files hn
+
+/-- the test is not vacuous on images: two inodes pointing at one block fail it, and so does an
+    inode whose index block repeats a direct pointer -/
+example : GoNfsd.Model.Fsck.chkOneOwner
+    { (default : GoNfsd.Model.Fsck.Image) with
+      inodes := [{ inum := 2, kind := 1, nlink := 1, gen := 0, size := 0, shrink := 0, blks := [700, 0, 0, 0, 0, 0, 0, 0, 0, 0] },
+                 { inum := 3, kind := 1, nlink := 1, gen := 0, size := 0, shrink := 0, blks := [0, 700, 0, 0, 0, 0, 0, 0, 0, 0] }] } = false := by decide
+example : GoNfsd.Model.Fsck.chkOneOwner
+    { (default : GoNfsd.Model.Fsck.Image) with
+      inodes := [{ inum := 2, kind := 1, nlink := 1, gen := 0, size := 0, shrink := 0, blks := [700, 0, 0, 0, 0, 0, 0, 0, 701, 0] }],
+      ind := [(701, [(4, 700)])] } = false := by decide
 
 /-- Non-vacuity: two files take turns at the allocator (direct, indirect and double-indirect blocks):
     all pointers differ. -/
